@@ -388,6 +388,17 @@ fn approx(case: &Value) -> Value {
             m => panic!("mode {}", m),
         }
     };
+    // the provided negative forms (`abs_diff_ne`, `relative_ne`, `ulps_ne`: what `assert_*_ne!` calls)
+    let whole_ne = |a: &Interval<f64>, b: &Interval<f64>| -> bool {
+        match mode {
+            "abs" => a.abs_diff_ne(b, eps),
+            "rel" => a.relative_ne(b, eps, enc::dec_f64(&case["max_rel"])),
+            "ulps" => a.ulps_ne(b, eps, case["max_ulps"].as_u64().unwrap() as u32),
+            m => panic!("mode {}", m),
+        }
+    };
+    ev["res_ne"] = json!(whole_ne(&a, &b));
+    ev["res_ne_sym"] = json!(whole_ne(&b, &a));
     ev["res"] = json!(whole(&a, &b));
     ev["res_sym"] = json!(whole(&b, &a));
     ev["res_refl"] = json!(whole(&a, &a));
